@@ -321,6 +321,36 @@ var dmMutOps = []dmMutOp{
 		out = append(out, lines[i+1:]...)
 		return out, true
 	}},
+	{"duplicate-resource-statement", func(r *lib.Rng, lines []string) ([]string, bool) {
+		// use after invalidation: a statement that moves or destroys a resource is repeated
+		i := dmPickLine(r, lines, func(l string) bool {
+			t := strings.TrimSpace(l)
+			return dmIsPlainStmt(l) && (strings.HasPrefix(t, "destroy ") || (strings.Contains(t, "<-") && !strings.HasPrefix(t, "let ") && !strings.HasPrefix(t, "var ") && !strings.HasPrefix(t, "return")))
+		})
+		if i < 0 {
+			return nil, false
+		}
+		out := append([]string{}, lines[:i+1]...)
+		out = append(out, lines[i])
+		out = append(out, lines[i+1:]...)
+		return out, true
+	}},
+	{"destroy-earlier", func(r *lib.Rng, lines []string) ([]string, bool) {
+		// move a `destroy x` up by one or two statements (before a use of x)
+		i := dmPickLine(r, lines, func(l string) bool { return strings.HasPrefix(strings.TrimSpace(l), "destroy ") })
+		if i < 1 {
+			return nil, false
+		}
+		j := i - 1 - r.Intn(2)
+		if j < 0 || !dmIsPlainStmt(lines[j]) || !dmIsPlainStmt(lines[i-1]) {
+			return nil, false
+		}
+		out := append([]string{}, lines[:j]...)
+		out = append(out, lines[i])
+		out = append(out, lines[j:i]...)
+		out = append(out, lines[i+1:]...)
+		return out, true
+	}},
 	{"move-statement-later", func(r *lib.Rng, lines []string) ([]string, bool) {
 		// move a plain statement a few lines down within the same block (same indentation, no braces crossed)
 		i := dmPickLine(r, lines, dmIsPlainStmt)
